@@ -74,7 +74,8 @@ func (l *Labels) FromBytes(data []byte) error {
 	if err != nil {
 		return err
 	}
-	l.original = data
+	// Keep a private copy: the caller may reuse its buffer.
+	l.original = append([]byte{}, data...)
 	l.Labels = labs
 	return nil
 }
